@@ -49,6 +49,8 @@ def band_instances(ctx, rule):
                         l, r = ks
                         is_limit = any(tag(x) == "field" and payload(x)[0] in ("0", "1") for x in sym.walk(r)) or "price_boundaries" in sym.show(r, 6)
                         has_amount = any(tag(x) == "param" and payload(x)[2] in ("quote_asset_amount", "base_asset_amount") for x in sym.walk(l))
+                        if not is_limit:
+                            continue   # a comparison with a constant (0, MAX) is no band test: both real bounds are required
                         if nm == "gt":
                             if has_amount:
                                 new_hi = True
